@@ -339,7 +339,7 @@ def _gen_variants(rng, gene, contig_seq, opts):
             if not pair:
                 continue
             ids = []
-            for w, func in zip(pair, (True, rng.random() < 0.5)):
+            for w, func in zip(pair, (True, rng.random() < 0.5 or bool(opts.get("close_func")))):
                 vid = max([int(k[1:]) for k in gene["variants"]] + [0]) + 1
                 gene["variants"][f"v{vid}"] = dict(w, id=f"v{vid}", region=_region_of(gene, w["g"]), func=func, rsid="-")
                 ids.append(f"v{vid}")
